@@ -434,7 +434,7 @@ func ruleCompilerDecodes(c *Ctx) {
 			pinned := int64(-1)
 			for _, cd := range g.expandAnd(g.CondsAtInstr(in)) {
 				b, ok := cd.V.(*ssa.BinOp)
-				if !ok || !((b.Op == token.EQL && cd.Sense) || (b.Op == token.NEQ && !cd.Sense)) {
+				if !ok || !((eqHolds(b, cd)) || (b.Op == token.NEQ && !cd.Sense)) {
 					continue
 				}
 				x, y := b.X, b.Y
@@ -864,7 +864,7 @@ func rulePseudoIndexNeedsFrame(c *Ctx) {
 				if cst, ok := other.(*ssa.Const); !ok || !cst.IsNil() {
 					return false
 				}
-				return (b.Op == token.NEQ && cd.Sense) || (b.Op == token.EQL && !cd.Sense)
+				return (b.Op == token.NEQ && cd.Sense) || (neHolds(b, cd))
 			}, 0)
 			if !guarded && bad == nil {
 				bad = in
